@@ -922,3 +922,268 @@ Theorem marshal_stream_cursor p k :
 Proof. rewrite marshal_stream_unread. reflexivity. Qed.
 Lemma fresh_is_fixed_point p : p_rpos p = 0 -> rewind p = p /\ unread p = p.
 Proof. intros H. split; [apply rewind_fresh | apply unread_fresh]; exact H. Qed.
+
+(* ==== 9. streams whose end is observable: data delivered with io.EOF, failing reads =============
+   `plain s` forgets HOW the stream ends: the chunks, with a non-empty last-chunk-with-EOF as an
+   ordinary last chunk.  Whenever the plain reader succeeds on `plain s`, the reader that sees
+   both results of every Read succeeds on s with the same result (read by read simulation): a
+   correct consumer of io.Reader does not care whether the last bytes come with io.EOF or before
+   it.  All theorems about splits into short reads therefore hold for these streams too. *)
+Definition plain (s : esrc) : src :=
+  fst s ++ match snd s with FLast c => if is_nil c then [] else [c] | _ => [] end.
+
+Lemma concat_plain s : concat (plain s) = ebytes s.
+Proof.
+  unfold plain, ebytes. rewrite concat_app. f_equal. destruct (snd s) as [|c|e]; try reflexivity.
+  destruct c; cbn; [reflexivity | rewrite app_nil_r; reflexivity].
+Qed.
+Lemma no_empty_plain s : no_empty (fst s) -> no_empty (plain s).
+Proof.
+  intros H. unfold plain. apply no_empty_app; [exact H|]. destruct (snd s) as [|c|e]; try constructor.
+  destruct c; cbn [is_nil]; constructor; [discriminate | constructor].
+Qed.
+
+Lemma drop_nonnil {A} (c : list A) k : c <> [] -> k < len c -> is_nil (drop k c) = false.
+Proof.
+  intros Hc H. apply nonempty_len in Hc. destruct (Z.lt_ge_cases k 0) as [N|N].
+  - rewrite drop_nonpos by lia. apply is_nil_false. lia.
+  - apply is_nil_false. rewrite len_drop by lia. lia.
+Qed.
+
+(* one Read: same bytes; an error only together with the end of the plain stream *)
+Lemma read1e_plain k s :
+  match read1 k (plain s) with
+  | Some (got, t) => exists e s', read1e k s = (got, e, s') /\ plain s' = t /\ (e = None \/ t = [])
+  | None => True
+  end.
+Proof.
+  destruct s as [[|c rest] f]; unfold plain, read1e; cbn [fst snd app].
+  - destruct f as [|d|e]; cbn [read1 app]; try exact I.
+    destruct d as [|x0 d0]; cbn [is_nil read1]; [exact I|]. set (d := x0 :: d0).
+    assert (Hd : d <> []) by discriminate.
+    destruct (Z.leb_spec (len d) k) as [L|L].
+    + exists (Some EOF), ([], FEof). repeat split. right. reflexivity.
+    + exists None, ([], FLast (drop k d)). cbn [fst snd app]. rewrite drop_nonnil by (lia || exact Hd). repeat split. left. reflexivity.
+  - cbn [read1]. destruct (len c <=? k).
+    + exists None, (rest, f). repeat split. left. reflexivity.
+    + exists None, (drop k c :: rest, f). repeat split. left. reflexivity.
+Qed.
+
+Lemma read_full_nil_ok f k acc r : read_full f k [] acc = Ok r -> k <= 0 /\ r = (acc, []).
+Proof.
+  destruct f; cbn [read_full read1]; destruct (Z.leb_spec k 0) as [L|L]; intros H;
+    try (injection H as <-; split; [lia | reflexivity]); try discriminate H.
+  destruct (is_nil acc); discriminate H.
+Qed.
+Lemma read_body_nil_ok f k acc first r : read_body f k [] acc first = Ok r -> k <= 0 /\ r = (acc, []).
+Proof.
+  destruct f; cbn [read_body read1]; destruct (Z.leb_spec k 0) as [L|L]; intros H;
+    try (injection H as <-; split; [lia | reflexivity]); discriminate H.
+Qed.
+
+Lemma read_full_sim : forall f k s acc r t, read_full f k (plain s) acc = Ok (r, t) ->
+  exists s', read_full_e f k s acc = Ok (r, s') /\ plain s' = t.
+Proof.
+  induction f as [|f IH]; intros k s acc r t H.
+  - cbn [read_full read_full_e] in *. destruct (k <=? 0); [|discriminate]. injection H as <- <-. eauto.
+  - cbn [read_full read_full_e] in *. destruct (k <=? 0); [injection H as <- <-; eauto|].
+    pose proof (read1e_plain k s) as R. destruct (read1 k (plain s)) as [[got t1]|]; [|destruct (is_nil acc); discriminate].
+    destruct R as (e & s1 & -> & P & D).
+    destruct (Z.leb_spec (k - len got) 0) as [L|L].
+    + destruct f; cbn [read_full] in H; replace (k - len got <=? 0) with true in H by lia; injection H as <- <-; eauto.
+    + destruct D as [-> | ->]; [apply IH; rewrite P; exact H|].
+      apply read_full_nil_ok in H. lia.
+Qed.
+
+Lemma read_body_sim : forall f k s acc first r t, read_body f k (plain s) acc first = Ok (r, t) ->
+  exists s', read_body_e f k s acc first = Ok (r, s') /\ plain s' = t.
+Proof.
+  induction f as [|f IH]; intros k s acc first r t H.
+  - cbn [read_body read_body_e] in *. destruct (k <=? 0); [|discriminate]. injection H as <- <-. eauto.
+  - cbn [read_body read_body_e] in *. destruct (k <=? 0); [injection H as <- <-; eauto|].
+    pose proof (read1e_plain (Z.min k bufSize) s) as R. destruct (read1 (Z.min k bufSize) (plain s)) as [[got t1]|]; [|discriminate].
+    destruct R as (e & s1 & -> & P & D).
+    destruct D as [-> | ->].
+    + destruct (is_nil got); [destruct first; [discriminate|]|]; apply IH; rewrite P; exact H.
+    + (* the plain stream is exhausted after this Read: it succeeds only when nothing more is owed *)
+      assert (K : (if is_nil got then k else k - len got) <= 0 /\ r = (if is_nil got then acc else acc ++ got) /\ t = []).
+      { destruct (is_nil got); [destruct first; [discriminate|]|]; apply read_body_nil_ok in H; destruct H as [H1 H2]; injection H2 as -> ->; repeat split; try reflexivity; lia. }
+      destruct K as (K1 & -> & ->).
+      destruct e as [x|].
+      * destruct (x =? EOF).
+        -- destruct (is_nil got) eqn:N.
+           ++ destruct first; [discriminate|]. destruct f; cbn [read_body_e]; replace (k <=? 0) with true by lia; eauto.
+           ++ destruct f; cbn [read_body_e]; replace (k - len got <=? 0) with true by lia; eauto.
+        -- destruct (is_nil got) eqn:N.
+           ++ destruct got; [|discriminate]. rewrite len_nil, Z.sub_0_r, app_nil_r. replace (k <=? 0) with true by lia. eauto.
+           ++ replace (k - len got <=? 0) with true by lia. eauto.
+      * destruct (is_nil got) eqn:N.
+        -- destruct first; [discriminate|]. destruct f; cbn [read_body_e]; replace (k <=? 0) with true by lia; eauto.
+        -- destruct f; cbn [read_body_e]; replace (k - len got <=? 0) with true by lia; eauto.
+Qed.
+
+Lemma read_full_e_fuel_mono : forall f k s acc r, read_full_e f k s acc = Ok r ->
+  forall f', (f <= f')%nat -> read_full_e f' k s acc = Ok r.
+Proof.
+  induction f as [|f IH]; intros k s acc r H f' Hf.
+  - cbn [read_full_e] in H. destruct (k <=? 0) eqn:E; [|discriminate]. destruct f'; cbn [read_full_e]; rewrite E; exact H.
+  - destruct f' as [|f']; [lia|]. cbn [read_full_e] in *. destruct (k <=? 0); [exact H|].
+    destruct (read1e k s) as [[got e] s1]. destruct (k - len got <=? 0); [exact H|].
+    destruct e; [exact H|]. apply (IH _ _ _ _ H). lia.
+Qed.
+Lemma read_body_e_fuel_mono : forall f k s acc first r, read_body_e f k s acc first = Ok r ->
+  forall f', (f <= f')%nat -> read_body_e f' k s acc first = Ok r.
+Proof.
+  induction f as [|f IH]; intros k s acc first r H f' Hf.
+  - cbn [read_body_e] in H. destruct (k <=? 0) eqn:E; [|discriminate]. destruct f'; cbn [read_body_e]; rewrite E; exact H.
+  - destruct f' as [|f']; [lia|]. cbn [read_body_e] in *. destruct (k <=? 0); [exact H|].
+    destruct (read1e (Z.min k bufSize) s) as [[got e] s1].
+    destruct e as [x|].
+    + destruct (x =? EOF); [|exact H].
+      destruct (is_nil got); [destruct first; [exact H|]|]; apply (IH _ _ _ _ _ H); lia.
+    + destruct (is_nil got); [destruct first; [exact H|]|]; apply (IH _ _ _ _ _ H); lia.
+Qed.
+
+Lemma length_plain s : (length (plain s) <= S (length (fst s)))%nat.
+Proof. unfold plain. rewrite app_length. destruct (snd s) as [|c|e]; cbn [length]; try lia. destruct (is_nil c); cbn [length]; lia. Qed.
+
+Lemma read_full_src_sim k s r t : read_full (src_fuel (plain s) k) k (plain s) [] = Ok (r, t) ->
+  exists s', read_full_e (efuel s) k s [] = Ok (r, s') /\ plain s' = t.
+Proof.
+  intros H. apply read_full_sim in H. destruct H as (s' & H & P). exists s'. split; [|exact P].
+  apply (read_full_e_fuel_mono _ _ _ _ _ H). unfold src_fuel, efuel. pose proof (length_plain s). lia.
+Qed.
+
+Lemma read_device_sim s d t : read_device (plain s) = Ok (d, t) -> exists s', read_device_e s = Ok (d, s') /\ plain s' = t.
+Proof.
+  unfold read_device, read_device_e. intros H. apply bind_ok in H. destruct H as ([d0 t0] & E & H).
+  apply read_full_src_sim in E. destruct E as (s0 & -> & P). cbn [bind].
+  destruct d0 as [|b d0]; [discriminate|]. destruct (b =? 0); [discriminate|]. injection H as <- <-. eauto.
+Qed.
+
+Lemma read_header_sim s h t : read_header (plain s) = Ok (h, t) -> exists s', read_header_e s = Ok (h, s') /\ plain s' = t.
+Proof.
+  unfold read_header, read_header_e. intros H.
+  apply bind_ok in H. destruct H as ([d t1] & E1 & H). apply read_device_sim in E1. destruct E1 as (s1 & -> & <-). cbn [bind].
+  apply bind_ok in H. destruct H as ([b t2] & E2 & H). apply read_full_src_sim in E2. destruct E2 as (s2 & -> & <-). cbn [bind].
+  apply bind_ok in H. destruct H as ([[[[id job] fl] nt] cls] & E3 & H). rewrite E3. cbn [bind].
+  apply bind_ok in H. destruct H as (w & E4 & H). rewrite E4. cbn [bind].
+  apply bind_ok in H. destruct H as ([lb t3] & E5 & H). apply read_full_src_sim in E5. destruct E5 as (s3 & -> & <-). cbn [bind].
+  injection H as <- <-. eauto.
+Qed.
+
+Lemma read_tags_sim : forall n s ts t, read_tags n (plain s) = Ok (ts, t) -> exists s', read_tags_e n s = Ok (ts, s') /\ plain s' = t.
+Proof.
+  induction n as [|n IH]; intros s ts t H; cbn [read_tags read_tags_e] in *; [injection H as <- <-; eauto|].
+  apply bind_ok in H. destruct H as ([b t1] & E1 & H). apply read_full_src_sim in E1. destruct E1 as (s1 & -> & <-). cbn [bind].
+  destruct (of_be b 0 =? 0); [discriminate|].
+  apply bind_ok in H. destruct H as ([ts0 t2] & E2 & H). apply IH in E2. destruct E2 as (s2 & -> & <-). cbn [bind].
+  injection H as <- <-. eauto.
+Qed.
+
+(* the wire reader: whatever the plain reader returns on `plain s`, the reader that sees the end
+   of the stream returns on s *)
+Theorem unmarshal_e_sim s q t : unmarshal (plain s) = Ok (q, t) -> exists s', unmarshal_e s = Ok (q, s') /\ plain s' = t.
+Proof.
+  unfold unmarshal, unmarshal_e. intros H.
+  apply bind_ok in H. destruct H as ([[[[[[d id] job] fl] nt] l] t1] & E1 & H). apply read_header_sim in E1. destruct E1 as (s1 & -> & <-). cbn [bind].
+  apply bind_ok in H. destruct H as ([ts t2] & E2 & H). apply read_tags_sim in E2. destruct E2 as (s2 & -> & <-). cbn [bind].
+  apply bind_ok in H. destruct H as ([pay t3] & E3 & H).
+  destruct (l =? 0).
+  - injection E3 as <- <-. cbn [bind]. injection H as <- <-. eauto.
+  - apply read_body_sim in E3. destruct E3 as (s3 & E3 & <-).
+    rewrite (read_body_e_fuel_mono _ _ _ _ _ _ E3).
+    + cbn [bind]. injection H as <- <-. eauto.
+    + unfold body_fuel, body_fuel_e. rewrite concat_plain. pose proof (length_plain s2). lia.
+Qed.
+
+(* unmarshal_marshal for every reader: any split into non-empty short reads, the last bytes with
+   or without io.EOF, a failing Read somewhere after the packet *)
+Theorem unmarshal_e_marshal p b s rest :
+  wf p = true -> marshal p = Ok b -> no_empty (fst s) -> ebytes s = b ++ rest ->
+  exists s', unmarshal_e s = Ok (rewind p, s') /\ ebytes s' = rest.
+Proof.
+  intros H E Hs Hc.
+  destruct (unmarshal_marshal p b (plain s) rest H E (no_empty_plain s Hs)) as (t & U & C & _); [rewrite concat_plain; exact Hc|].
+  apply unmarshal_e_sim in U. destruct U as (s' & U & <-). exists s'. split; [exact U|]. rewrite <- concat_plain. exact C.
+Qed.
+
+(* ---- the nested form through data.NewReader over such streams ------------------------------- *)
+Lemma srd_u8_sim s v t : srd_u8 (plain s) = Ok (v, t) -> exists s', srd_u8_e s = Ok (v, s') /\ plain s' = t.
+Proof.
+  unfold srd_u8, srd_u8_e. intros H. pose proof (read1e_plain 1 s) as R.
+  destruct (read1 1 (plain s)) as [[got t1]|]; [|discriminate]. destruct R as (e & s1 & -> & P & _).
+  destruct got as [|b g]; [discriminate|]. injection H as <- <-. eauto.
+Qed.
+Lemma srd_uN_sim n s v t : srd_uN n (plain s) = Ok (v, t) -> exists s', srd_uN_e n s = Ok (v, s') /\ plain s' = t.
+Proof.
+  unfold srd_uN, srd_uN_e. intros H. apply bind_ok in H. destruct H as ([b t1] & E & H).
+  apply read_full_src_sim in E. destruct E as (s1 & -> & <-). cbn [bind]. injection H as <- <-. eauto.
+Qed.
+Lemma srd_prefix_sim s v t : srd_prefix (plain s) = Ok (v, t) -> exists s', srd_prefix_e s = Ok (v, s') /\ plain s' = t.
+Proof.
+  unfold srd_prefix, srd_prefix_e. intros H. apply bind_ok in H. destruct H as ([c t1] & E & H).
+  apply srd_u8_sim in E. destruct E as (s1 & -> & <-). cbn [bind].
+  destruct (c =? 0); [injection H as <- <-; eauto|].
+  destruct ((c =? 1) || (c =? 2)).
+  { apply bind_ok in H. destruct H as ([n t2] & E & H). apply srd_u8_sim in E. destruct E as (s2 & -> & <-). cbn [bind]. injection H as <- <-. eauto. }
+  destruct ((c =? 3) || (c =? 4)).
+  { apply bind_ok in H. destruct H as ([n t2] & E & H). apply srd_uN_sim in E. destruct E as (s2 & -> & <-). cbn [bind]. injection H as <- <-. eauto. }
+  destruct ((c =? 5) || (c =? 6)).
+  { apply bind_ok in H. destruct H as ([n t2] & E & H). apply srd_uN_sim in E. destruct E as (s2 & -> & <-). cbn [bind]. injection H as <- <-. eauto. }
+  destruct ((c =? 7) || (c =? 8)); [|discriminate].
+  apply bind_ok in H. destruct H as ([n t2] & E & H). apply srd_uN_sim in E. destruct E as (s2 & -> & <-). cbn [bind]. injection H as <- <-. eauto.
+Qed.
+Lemma srd_bytes_sim s v t : srd_bytes (plain s) = Ok (v, t) -> exists s', srd_bytes_e s = Ok (v, s') /\ plain s' = t.
+Proof.
+  unfold srd_bytes, srd_bytes_e. intros H. apply bind_ok in H. destruct H as ([ol t1] & E & H).
+  apply srd_prefix_sim in E. destruct E as (s1 & -> & <-). cbn [bind].
+  destruct ol as [l|]; [|injection H as <- <-; eauto].
+  destruct (l =? 0); [discriminate|]. destruct (MaxSlice <? l); [discriminate|].
+  apply read_full_src_sim. exact H.
+Qed.
+Lemma srd_tags_sim : forall n s ts t, srd_tags n (plain s) = Ok (ts, t) -> exists s', srd_tags_e n s = Ok (ts, s') /\ plain s' = t.
+Proof.
+  induction n as [|n IH]; intros s ts t H; cbn [srd_tags srd_tags_e] in *; [injection H as <- <-; eauto|].
+  apply bind_ok in H. destruct H as ([v t1] & E1 & H). apply srd_uN_sim in E1. destruct E1 as (s1 & -> & <-). cbn [bind].
+  destruct (v =? 0); [discriminate|].
+  apply bind_ok in H. destruct H as ([ts0 t2] & E2 & H). apply IH in E2. destruct E2 as (s2 & -> & <-). cbn [bind].
+  injection H as <- <-. eauto.
+Qed.
+
+Theorem unmarshal_srd_e_sim s q t : unmarshal_srd (plain s) = Ok (q, t) -> exists s', unmarshal_srd_e s = Ok (q, s') /\ plain s' = t.
+Proof.
+  unfold unmarshal_srd, unmarshal_srd_e. intros H.
+  apply bind_ok in H. destruct H as ([id t1] & E & H). apply srd_u8_sim in E. destruct E as (s1 & -> & <-). cbn [bind].
+  apply bind_ok in H. destruct H as ([job t2] & E & H). apply srd_uN_sim in E. destruct E as (s2 & -> & <-). cbn [bind].
+  apply bind_ok in H. destruct H as ([nt t3] & E & H). apply srd_uN_sim in E. destruct E as (s3 & -> & <-). cbn [bind].
+  apply bind_ok in H. destruct H as ([fl t4] & E & H). apply srd_uN_sim in E. destruct E as (s4 & -> & <-). cbn [bind].
+  apply bind_ok in H. destruct H as ([d t5] & E & H). apply read_device_sim in E. destruct E as (s5 & -> & <-). cbn [bind].
+  apply bind_ok in H. destruct H as ([ts t6] & E & H). apply srd_tags_sim in E. destruct E as (s6 & -> & <-). cbn [bind].
+  apply bind_ok in H. destruct H as ([pay t7] & E & H). apply srd_bytes_sim in E. destruct E as (s7 & -> & <-). cbn [bind].
+  injection H as <- <-. eauto.
+Qed.
+
+Theorem unmarshal_srd_e_marshal_stream p s rest :
+  wf_stream p = true -> no_empty (fst s) -> ebytes s = marshal_stream p ++ rest ->
+  exists s', unmarshal_srd_e s = Ok (unread p, s') /\ ebytes s' = rest.
+Proof.
+  intros H Hs Hc.
+  destruct (unmarshal_srd_marshal_stream p (plain s) rest H (no_empty_plain s Hs)) as (t & U & C & _); [rewrite concat_plain; exact Hc|].
+  apply unmarshal_srd_e_sim in U. destruct U as (s' & U & <-). exists s'. split; [exact U|]. rewrite <- concat_plain. exact C.
+Qed.
+
+(* ---- zero-length reads (0, nil): where the code tolerates them ------------------------------------
+   io.ReadFull just reads again; Chunk.ReadFrom ends its call on a zero-length read, and readBody
+   gives up when a whole ReadFrom call delivered nothing: a (0, nil) read is tolerated inside the
+   header and the tags, and in the payload only directly after a Read that delivered bytes. *)
+Lemma zero_reads_where_tolerated f k s acc : 0 < k ->
+  read_full (S f) k ([] :: s) acc = read_full f k s acc /\
+  read_body (S f) k ([] :: s) acc false = read_body f k s acc true /\
+  read_body (S f) k ([] :: s) acc true = Err ErrUnexpectedEOF.
+Proof.
+  intros Hk. cbn [read_full read_body read1]. replace (k <=? 0) with false by lia.
+  change (len (@nil Z)) with 0. replace (0 <=? k) with true by lia.
+  replace (0 <=? Z.min k bufSize) with true by (unfold bufSize; lia).
+  cbn [is_nil]. rewrite app_nil_r, Z.sub_0_r. repeat split.
+Qed.
